@@ -145,6 +145,9 @@ func bring(w *hz.World, ps hz.PeerSpec, dir, st string, hold uint16) *sess {
 	}
 	s.rc.SendKeepalive()
 	w.Settle()
+	for i := 0; i < 20 && !s.mon.Up(); i++ { // OnEstablished itself may take virtual time
+		w.Settle()
+	}
 	if !s.mon.Up() {
 		w.Violate("session did not become Established after the remote's KEEPALIVE (%s connection; plugin state %s)", dir, s.mon.State())
 		return nil
